@@ -164,5 +164,5 @@ def rand_frame(rng):
     if c < 0.92:
         return rand_body(rng), rand_channel(rng)
     if c < 0.96:
-        return heartbeat.Heartbeat(), 0
+        return heartbeat.Heartbeat(), rng.choice([0, 0, 1, 5, 65535])   # (the encoder ignores the channel of a heartbeat)
     return header.ProtocolHeader(rng.randint(0, 255), rng.randint(0, 255), rng.randint(0, 255)), 0
